@@ -76,9 +76,11 @@ bool Directory::removeRecursive(const String& path)
 	if (((abs.length() > 3 && abs.substr(3) == "windows") || abs.substr(3) == "program files") || abs == "")
 		return false;
 	Directory dir(path);
-	foreach(File& file, dir.files())
+	const Array<File> files = dir.files(); // (foreach keeps a reference to its container: not for temporaries)
+	foreach(File& file, files)
 		ok = ok && file.remove();
-	foreach(File& d, dir.subdirs())
+	const Array<File> subdirs = dir.subdirs();
+	foreach(File& d, subdirs)
 		ok = ok && removeRecursive(d.path());
 	
 	ok = ok && remove(path);
